@@ -10,6 +10,7 @@
 //   c11.nm   <ftol> <mpts> <row>… <prog>     -> ok ndim pmin… fmin nfunc mpts y… rows… f(pmin) f(row_i)… ntrace pts…
 //   c11.nmd  <ftol> <start> <deltas> <prog>
 //   c11.nm1  <ftol> <start> <delta> <prog>
+//   c11.nmre <ftolOut> <start> <deltaOut> <ftolIn> <t0> <deltaIn> <prog over x,t>   re-entrant: F(x) = inner minimize over t
 //   c11.nmseq <ftol> <n> <member>...         -> ok SEQ <answers of the runs on ONE object, joined by |> FRESH <answer of each run on a fresh object, joined by |>
 #define HZ_MAIN
 #include "common.hpp"
@@ -199,6 +200,54 @@ std::string handle(const std::string& op, Args& a)
 			else
 				pmin = M.minimize(start, delta, f);
 			report_nm(o, M, pmin, pr, trace);
+		});
+	}
+	if(op == "c11.nmre")
+	{
+		// re-entrant use: the outer objective F(x) = fmin of an inner Minimization::minimize(t0, deltaIn, t -> g(x,t)) run
+		// by the callback on an object of its own.  Answer: the layout of c11.nm1 (re-evaluations through F), followed by
+		// the value the callback returned at every outer evaluation.
+		double fo = a.dbl();
+		auto start = a.dbls();
+		double dout = a.dbl();
+		double fi = a.dbl();
+		auto t0 = a.dbls();
+		double din = a.dbl();
+		auto pr = prog(a);
+		a.end();
+		return run_forked([&](Out& o) {
+			auto F = [&](const std::vector<double>& x) {
+				std::function<double(std::vector<double>)> gx = [&](std::vector<double> t) {
+					std::vector<double> xt = x;
+					xt.insert(xt.end(), t.begin(), t.end());
+					return eval(pr, xt);
+				};
+				Minimization inner(fi);
+				std::vector<double> t = t0;
+				inner.minimize(t, din, gx);
+				return inner.fmin;
+			};
+			std::vector<std::vector<double>> trace;
+			std::vector<double> values;
+			std::function<double(std::vector<double>)> f = [&](std::vector<double> x) {
+				trace.push_back(x);
+				double v = F(x);
+				values.push_back(v);
+				return v;
+			};
+			Minimization M(fo);
+			std::vector<double> st = start;
+			std::vector<double> pmin = M.minimize(st, dout, f);
+			o << pmin.size() << pmin << M.fmin << M.nfunc << M.y.size() << M.y;
+			for(auto& r : M.current_simplex)
+				o << r;
+			o << F(pmin);
+			for(auto& r : M.current_simplex)
+				o << F(r);
+			o << trace.size();
+			for(auto& t : trace)
+				o << t;
+			o.list(values);
 		});
 	}
 	if(op == "c11.nmseq")
